@@ -39,11 +39,18 @@ func (s *sim) scanIsolation(ctx string) {
 	for _, typ := range types {
 		for _, tb := range s.g.p.tables {
 			var want []string
+			skip := map[string]bool{"": true}
 			for _, x := range s.tuples {
-				if x.typ == typ && strings.HasPrefix(x.key, tb+":") && !strings.HasPrefix(s.cache[x.id()], "(nil)") && !strings.HasPrefix(s.cache[x.id()], "[]") {
-					if kn := x.key[len(tb)+1:]; kn != "" {
-						want = append(want, kn)
-					}
+				if x.typ != typ || !strings.HasPrefix(x.key, tb+":") {
+					continue
+				}
+				kn := x.key[len(tb)+1:]
+				if s.taint[x.id()] != "" {
+					// damaged by a recorded deviation: may or may not be listed
+					skip[kn] = true
+				}
+				if !skip[kn] && !strings.HasPrefix(s.cache[x.id()], "(nil)") && !strings.HasPrefix(s.cache[x.id()], "[]") {
+					want = append(want, kn)
 				}
 			}
 			sort.Strings(want)
@@ -53,15 +60,25 @@ func (s *sim) scanIsolation(ctx string) {
 			}
 			for _, cmd := range cmds {
 				sp := scanSpec{cmd: cmd, typ: typ, table: tb, count: 3}
-				got, _, err := s.keyScan(sp, nil)
+				if cmd == "scan" && ctx != "after end of run" {
+					// chained plain SCAN is a recorded deviation; one page here
+					sp.count = 100
+				}
+				got, pages, err := s.keyScan(sp, nil)
 				var g2 []string
 				for _, k := range got {
-					if k != "" {
+					if !skip[k] {
 						g2 = append(g2, k)
 					}
 				}
 				if err != "" || !sameStrs(g2, want) {
-					s.c.Violate(s.prop("C12"), "scan-leaves-table", "", "%s: %s of %s keys in table %q returns %q (%s), the keys that hold data there are %q", ctx, strings.ToUpper(cmd), advType[typ], tb, got, err, want)
+					key := known13(sp, "", pages)
+					if key == "" && s.cfg.engine == "mem" && pages >= 2 && (strings.Contains(strings.Join(want, ""), "\x00") || strings.Contains(tb, "\x00")) {
+						// mem (radix) engine: seeking to a cursor next to keys that
+						// extend another key by 0x00 lands at the wrong place
+						key = "memradix-nul-extended-key-seek"
+					}
+					s.c.Violate(s.prop("C12"), "scan-leaves-table", key, "%s: %s of %s keys in table %q returns %q (%s), the keys that hold data there are %q", ctx, strings.ToUpper(cmd), advType[typ], tb, got, err, want)
 				}
 			}
 		}
@@ -237,10 +254,16 @@ func (s *sim) encoderCheck() {
 			tables = append(tables, tb)
 		}
 	}
-	keys := names(p.keys, 3)
+	var keys [][]byte
+	for _, k := range names(p.keys, 3) {
+		if len(k) > 0 { // collections refuse an empty key name
+			keys = append(keys, k)
+		}
+	}
 	subs := names(p.subs, 3)
 	scores := []float64{codecFloats[t.Choose(len(codecFloats))], 1, 1.5}
-	seqs := []int64{codecInts[t.Choose(len(codecInts))], 0, 1 << 40}
+	// list sequence numbers live in (listMinSeq, listMaxSeq) = (1000, 2^62-1000)
+	seqs := []int64{1001 + int64(t.U32()), 1001, 1<<62 - 1001, 1 << 61}
 
 	var all []encKey
 	type coll struct {
